@@ -1,32 +1,15 @@
 import FlVerif.Gen.CodeWave5X
 import FlVerif.Op.Infer
+import FlVerif.Op.InferTree
 
 /-! # Tie A for `WeightedDefuzzifier.infer_type`: the definition translated from the current source equals the model
 
-`infer_type` is recursive over the component it is given.  `inferComp` is the model on every tree of components
-(`Py.W5.Comp`); on the `Aggregated` term of the weighted model it is `Op.Weighted.inferType`, on a plain term it is
+`infer_type` is recursive over the component it is given.  `inferComp` (`Op/InferTree.lean`) is the model on every tree
+of components (`Py.W5.Comp`); on the `Aggregated` term of the weighted model it is `Op.Weighted.inferType`, on a plain term it is
 `Op.Weighted.inferTerm`. -/
 
 namespace Op.Weighted
 open Gen.Code Py.W Py.W5
-
-mutual
-/-- `infer_type` on every component: a plain term by its class, an `Activated` term by the term it wraps, an
-    `Aggregated` term / a `Variable` by the set of the types of its terms -/
-def inferComp : Comp → Except Err WType
-  | .plain t => .ok (inferTerm t)
-  | .activated c => inferComp c
-  | .group ts =>
-    inferList ts >>= fun l =>
-    match Py.distinct l with
-    | [t] => .ok t
-    | [] => .ok .automatic
-    | _ => .error .typeError
-/-- the types of a list of components, left to right, up to the first one that raises -/
-def inferList : List Comp → Except Err (List WType)
-  | [] => .ok []
-  | c :: cs => inferComp c >>= fun t => inferList cs >>= fun l => .ok (t :: l)
-end
 
 /-- a result of the model and a result of the translated code agree -/
 def InferAgree (r : Except Err WType) (g : Py.M WeightedDefuzzifier_infer_type.S) : Prop :=
